@@ -1,5 +1,5 @@
 CONSTANTS
   MaxN = 3
 SPECIFICATION Spec
-INVARIANTS KindTheorem ChainTheorem FailChainTheorem EmptyChainTheorem NestedTheorem EmitCase
+INVARIANTS KindTheorem ChainTheorem FailChainTheorem EmptyChainTheorem NestedTheorem UnkChainTheorem EmitCase
 CHECK_DEADLOCK FALSE
